@@ -1,5 +1,5 @@
 SPECIFICATION Spec
-CONSTANTS MaxT = 40  MaxK = 8  Lookup = "save_list"
+CONSTANTS MaxT = 30  MaxK = 8  Lookup = "save_list"
 INVARIANT TypeOK
 INVARIANT DecompressCorrect
 INVARIANT SlotsComplete
